@@ -45,7 +45,8 @@ func MapRange[M ~map[K]V, K comparable, V any](m M) []KV[K, V] {
 	if n == 1 {
 		return out
 	}
-	switch any(out[0].K).(type) {
+	var zk K
+	switch any(zk).(type) {
 	case string:
 		sort.Slice(out, func(i, j int) bool { return any(out[i].K).(string) < any(out[j].K).(string) })
 	case int:
@@ -68,7 +69,7 @@ func MapRange[M ~map[K]V, K comparable, V any](m M) []KV[K, V] {
 		}
 		out = s
 	}
-	s := cur.Load()
+	s := active()
 	if s == nil {
 		return out
 	}
